@@ -196,7 +196,6 @@ func C01(r *drv.Run) {
 			r.Inconclusive("Go regexp cross-check never ran")
 		}
 	}
-	r.Finish()
 }
 
 // ---- exhaustive small enumeration -------------------------------------------------
